@@ -285,6 +285,8 @@ fn run(rp: &Rp) -> i32 {
             report("documented recipe vs built-in", &got, &want, got != want)
         }
         "sim" => replay_sim(rp),
+        "std_struct" => replay_std_struct(rp),
+        "reject" | "reject_inf" | "reject_stream" | "reject_replace" => replay_reject(rp, &hay),
         "ac_ismatch" => {
             let (s, e) = (rp.usize("s"), rp.usize("e"));
             let ac = rp.ac();
@@ -303,6 +305,134 @@ fn run(rp: &Rp) -> i32 {
         t => {
             eprintln!("no native replay for template {}", t);
             2
+        }
+    }
+}
+
+/// Native, exhaustive form of the textbook-automaton check: every state of
+/// the natively built DFA (spelled by its breadth-first witness) and every
+/// byte, plus every match list.
+fn replay_std_struct(rp: &Rp) -> i32 {
+    use aho_corasick::automaton::{Automaton, StateID};
+    let b = crate::build(&rp.case);
+    let n = aho_corasick::verif::ac::as_nnfa(&b.ac_n).unwrap();
+    let c = aho_corasick::verif::ac::as_cnfa(&b.ac_c).unwrap();
+    let d = aho_corasick::verif::ac::as_dfa(&b.ac_d).unwrap();
+    let (rel, wit, _conf) = crate::product(n, c, d, Anchored::No);
+    let pats = rp.prefs();
+    let ci = rp.case.ci;
+    let mut bad: Vec<String> = vec![];
+    for (ns, (_cs, ds)) in rel.iter() {
+        let w = &wit[ns];
+        let sd = StateID::new_unchecked(*ds as usize);
+        let mut want = vec![];
+        let mut k = 0;
+        while let Some(p) = oracle::nth_suffix_pattern(&pats, w, k, ci) {
+            want.push(p);
+            k += 1;
+        }
+        let got: Vec<usize> = if d.is_match(sd) { (0..d.match_len(sd)).map(|i| d.match_pattern(sd, i).as_usize()).collect() } else { vec![] };
+        if got != want {
+            bad.push(format!("state spelled {:?}: match list {:?}, definition {:?}", w, got, want));
+        }
+        for byte in 0..=255u8 {
+            let t = d.next_state(Anchored::No, sd, byte);
+            let kk = oracle::ac_suffix_len(&pats, w, byte, ci);
+            let mut wb = w.clone();
+            wb.push(byte);
+            let suffix = &wb[wb.len() - kk..];
+            let target = rel.iter().find(|(k2, _)| {
+                let w2 = &wit[*k2];
+                w2.len() == suffix.len() && w2.iter().zip(suffix).all(|(a, b)| if ci { oracle::lower(*a) == oracle::lower(*b) } else { a == b })
+            });
+            match target {
+                None => bad.push(format!("state {:?} byte {:02x}: textbook successor {:?} missing", w, byte, suffix)),
+                Some((_, (_, dt))) => {
+                    if *dt != t.as_u32() {
+                        bad.push(format!("state {:?} byte {:02x}: DFA goes to {} but the textbook automaton to {}", w, byte, t.as_u32(), dt));
+                    }
+                }
+            }
+        }
+    }
+    bad.truncate(3);
+    report("DFA vs textbook Aho-Corasick automaton (all states x all bytes)", &bad, &"no difference", !bad.is_empty())
+}
+
+/// C13: run the public API call and classify Ok / Err / panic against the
+/// configuration-only rejection rule.
+fn replay_reject(rp: &Rp, hay: &[u8]) -> i32 {
+    let an = rp.flag("anchored");
+    let (sk, mk) = (rp.case.sk, rp.case.mk);
+    let has_empty = rp.pats.iter().any(|p| p.is_empty());
+    let ac = rp.ac();
+    let inp = || Input::new(hay).anchored(if an { Anchored::Yes } else { Anchored::No });
+    let tmpl = rp.get("template").to_string();
+    let api = rp.kv.get("api").cloned().unwrap_or_default();
+    let a = (sk == 1 && an) || (sk == 2 && !an);
+    let nonstd = mk != 0;
+    let rule = |api: &str, an: bool| -> bool {
+        let a = if api == "stream" || api == "replace" { sk == 2 } else { a };
+        match api {
+            "find" | "find_iter" | "is_match" | "replace" => a,
+            "find_overlapping" => a || nonstd,
+            "find_overlapping_iter" => a || nonstd || an,
+            "stream" => a || nonstd || has_empty,
+            _ => a,
+        }
+    };
+    match tmpl.as_str() {
+        "reject" => {
+            let got_err = match api.as_str() {
+                "find" => ac.try_find(inp()).is_err(),
+                "find_iter" => ac.try_find_iter(inp()).is_err(),
+                "find_overlapping" => {
+                    let mut st = OverlappingState::start();
+                    ac.try_find_overlapping(inp(), &mut st).is_err()
+                }
+                _ => ac.try_find_overlapping_iter(inp()).is_err(),
+            };
+            let want = rule(&api, an);
+            report(&format!("try_{} is_err", api), &got_err, &want, got_err != want)
+        }
+        "reject_inf" => {
+            let want_panic = rule(&api, an);
+            let prev = std::panic::take_hook();
+            std::panic::set_hook(Box::new(|_| {}));
+            let r = std::panic::catch_unwind(std::panic::AssertUnwindSafe(|| match api.as_str() {
+                "is_match" => {
+                    ac.is_match(inp());
+                }
+                "find" => {
+                    ac.find(inp());
+                }
+                "find_iter" => {
+                    let mut it = ac.find_iter(inp());
+                    it.next();
+                }
+                "find_overlapping" => {
+                    let mut st = OverlappingState::start();
+                    ac.find_overlapping(inp(), &mut st);
+                }
+                _ => {
+                    let mut it = ac.find_overlapping_iter(inp());
+                    it.next();
+                }
+            }));
+            std::panic::set_hook(prev);
+            let panicked = r.is_err();
+            report(&format!("{} panics", api), &panicked, &want_panic, panicked != want_panic)
+        }
+        "reject_stream" => {
+            let got_err = ac.try_stream_find_iter(hay).is_err();
+            let want = rule("stream", false);
+            report("try_stream_find_iter is_err", &got_err, &want, got_err != want)
+        }
+        _ => {
+            let mut dst = vec![];
+            let got_err = ac.try_replace_all_with_bytes(b"", &mut dst, |_, _, _| true).is_err();
+            let want = rule("replace", false);
+            report("try_replace_all_with_bytes is_err", &got_err, &want, got_err != want)
         }
     }
 }
@@ -349,91 +479,95 @@ fn replay_sim(rp: &Rp) -> i32 {
     let n = aho_corasick::verif::ac::as_nnfa(&b.ac_n).unwrap();
     let c = aho_corasick::verif::ac::as_cnfa(&b.ac_c).unwrap();
     let d = aho_corasick::verif::ac::as_dfa(&b.ac_d).unwrap();
-    let an = if rp.flag("anchored") { Anchored::Yes } else { Anchored::No };
-    let (rel, _wit, conflicts) = crate::product(n, c, d, an);
-    if !conflicts.is_empty() {
-        println!("native product walk finds conflicting partners: {:?} -> VIOLATION REPRODUCES", &conflicts[..1]);
-        return 1;
-    }
-    let rows: Vec<(u32, u32, u32)> = rel.iter().map(|(k, (x, y))| (*k, *x, *y)).collect();
-    let (lo, hi) = (rp.usize("lo"), rp.usize("hi"));
     let pair = rp.get("pair").to_string();
     let sid = |x: u32| StateID::new_unchecked(x as usize);
     let mut bad = vec![];
-    for i in lo..hi.min(rows.len()) {
-        let byte = rp.kv.get(&format!("b{}", i)).map(|v| v.parse::<u8>().unwrap()).unwrap_or(0);
-        let k = rp.kv.get(&format!("k{}", i)).map(|v| v.parse::<usize>().unwrap()).unwrap_or(0);
-        let (rn, rc, rd) = rows[i];
-        let tn = n.next_state(an, sid(rn), byte);
-        let tc = c.next_state(an, sid(rc), byte);
-        let td = if rd != u32::MAX { Some(d.next_state(an, sid(rd), byte)) } else { None };
-        let partner = rel.get(&tn.as_u32());
-        let obs = |what: &str, x: String, y: String, bad: &mut Vec<String>| {
-            if x != y {
-                bad.push(format!("row {} byte {:02x}: {} differs: {} vs {}", i, byte, what, x, y));
+    for part in rp.get("parts").split(';') {
+        let f: Vec<usize> = part.split(':').map(|v| v.parse().unwrap()).collect();
+        let (ani, lo, hi) = (f[0], f[1], f[2]);
+        let an = if ani == 1 { Anchored::Yes } else { Anchored::No };
+        let (rel, _wit, conflicts) = crate::product(n, c, d, an);
+        if !conflicts.is_empty() {
+            println!("native product walk finds conflicting partners: {:?} -> VIOLATION REPRODUCES", &conflicts[..1]);
+            return 1;
+        }
+        let rows: Vec<(u32, u32, u32)> = rel.iter().map(|(k, (x, y))| (*k, *x, *y)).collect();
+        // exhaustive over the bytes: the solver's byte is one of them
+        for (i, byte) in (lo..hi.min(rows.len())).flat_map(|i| (0..=255u8).map(move |b| (i, b))) {
+            let (rn, rc, rd) = rows[i];
+            let tn = n.next_state(an, sid(rn), byte);
+            let tc = c.next_state(an, sid(rc), byte);
+            let td = if rd != u32::MAX { Some(d.next_state(an, sid(rd), byte)) } else { None };
+            let partner = rel.get(&tn.as_u32());
+            let obs = |what: &str, x: String, y: String, bad: &mut Vec<String>| {
+                if x != y {
+                    bad.push(format!("anchored={} row {} byte {:02x}: {} differs: {} vs {}", ani, i, byte, what, x, y));
+                }
+            };
+            match partner {
+                None => bad.push(format!("row {} byte {:02x}: successor {:?} outside the relation", i, byte, tn)),
+                Some(&(pc, pd)) => {
+                    if pair != "nd" {
+                        obs("cnfa successor", format!("{}", pc), format!("{}", tc.as_u32()), &mut bad);
+                    }
+                    if let Some(td) = td {
+                        if pair != "nc" {
+                            obs("dfa successor", format!("{}", pd), format!("{}", td.as_u32()), &mut bad);
+                        }
+                    }
+                }
             }
-        };
-        match partner {
-            None => bad.push(format!("row {} byte {:02x}: successor {:?} outside the relation", i, byte, tn)),
-            Some(&(pc, pd)) => {
-                if pair != "nd" {
-                    obs("cnfa successor", format!("{}", pc), format!("{}", tc.as_u32()), &mut bad);
+            obs("is_match n/c", format!("{}", n.is_match(tn)), format!("{}", c.is_match(tc)), &mut bad);
+            obs("is_special n/c", format!("{}", n.is_special(tn)), format!("{}", c.is_special(tc)), &mut bad);
+            obs("is_dead n/c", format!("{}", n.is_dead(tn)), format!("{}", c.is_dead(tc)), &mut bad);
+            if let Some(td) = td {
+                obs("is_match n/d", format!("{}", n.is_match(tn)), format!("{}", d.is_match(td)), &mut bad);
+                obs("is_special n/d", format!("{}", n.is_special(tn)), format!("{}", d.is_special(td)), &mut bad);
+                obs("is_dead n/d", format!("{}", n.is_dead(tn)), format!("{}", d.is_dead(td)), &mut bad);
+                if !n.is_dead(tn) {
+                    obs("is_start n/d", format!("{}", n.is_start(tn)), format!("{}", d.is_start(td)), &mut bad);
+                }
+            }
+            if n.is_match(tn) && c.is_match(tc) {
+                let (ln, lc) = (n.match_len(tn), c.match_len(tc));
+                obs("match_len n/c", format!("{}", ln), format!("{}", lc), &mut bad);
+                if ln == 0 {
+                    bad.push(format!("row {}: match state without a pattern", i));
+                }
+                for kk in 0..ln.min(lc) {
+                    obs("match_pattern n/c", format!("{:?}", n.match_pattern(tn, kk)), format!("{:?}", c.match_pattern(tc, kk)), &mut bad);
+                    if n.match_pattern(tn, kk).as_usize() >= rp.pats.len() {
+                        bad.push(format!("row {}: invalid pattern id", i));
+                    }
                 }
                 if let Some(td) = td {
-                    if pair != "nc" {
-                        obs("dfa successor", format!("{}", pd), format!("{}", td.as_u32()), &mut bad);
+                    if d.is_match(td) {
+                        let ld = d.match_len(td);
+                        obs("match_len n/d", format!("{}", ln), format!("{}", ld), &mut bad);
+                        for kk in 0..ln.min(ld) {
+                            obs("match_pattern n/d", format!("{:?}", n.match_pattern(tn, kk)), format!("{:?}", d.match_pattern(td, kk)), &mut bad);
+                        }
                     }
                 }
             }
-        }
-        obs("is_match n/c", format!("{}", n.is_match(tn)), format!("{}", c.is_match(tc)), &mut bad);
-        obs("is_special n/c", format!("{}", n.is_special(tn)), format!("{}", c.is_special(tc)), &mut bad);
-        obs("is_dead n/c", format!("{}", n.is_dead(tn)), format!("{}", c.is_dead(tc)), &mut bad);
-        if let Some(td) = td {
-            obs("is_match n/d", format!("{}", n.is_match(tn)), format!("{}", d.is_match(td)), &mut bad);
-            obs("is_special n/d", format!("{}", n.is_special(tn)), format!("{}", d.is_special(td)), &mut bad);
-            obs("is_dead n/d", format!("{}", n.is_dead(tn)), format!("{}", d.is_dead(td)), &mut bad);
-            obs("is_start n/d", format!("{}", n.is_start(tn)), format!("{}", d.is_start(td)), &mut bad);
-        }
-        if n.is_match(tn) && c.is_match(tc) {
-            let (ln, lc) = (n.match_len(tn), c.match_len(tc));
-            obs("match_len n/c", format!("{}", ln), format!("{}", lc), &mut bad);
-            if ln == 0 {
-                bad.push(format!("row {}: match state without a pattern", i));
-            }
-            for kk in 0..ln.min(lc) {
-                let _ = k;
-                obs("match_pattern n/c", format!("{:?}", n.match_pattern(tn, kk)), format!("{:?}", c.match_pattern(tc, kk)), &mut bad);
-                if n.match_pattern(tn, kk).as_usize() >= rp.pats.len() {
-                    bad.push(format!("row {}: invalid pattern id", i));
+            for (nm, is_dead, is_match, is_special, is_start) in [
+                ("nnfa", n.is_dead(tn), n.is_match(tn), n.is_special(tn), n.is_start(tn)),
+                ("cnfa", c.is_dead(tc), c.is_match(tc), c.is_special(tc), c.is_start(tc)),
+            ] {
+                if (is_dead || is_match) && !is_special {
+                    bad.push(format!("row {}: {} dead/match state not special", i, nm));
+                }
+                if is_special && !(is_dead || is_match || is_start) {
+                    bad.push(format!("row {}: {} special state is neither dead, match nor start", i, nm));
                 }
             }
-            if let Some(td) = td {
-                if d.is_match(td) {
-                    let ld = d.match_len(td);
-                    obs("match_len n/d", format!("{}", ln), format!("{}", ld), &mut bad);
-                    for kk in 0..ln.min(ld) {
-                        obs("match_pattern n/d", format!("{:?}", n.match_pattern(tn, kk)), format!("{:?}", d.match_pattern(td, kk)), &mut bad);
-                    }
-                }
+            if n.is_dead(sid(rn)) && !(n.is_dead(tn) && c.is_dead(tc)) {
+                bad.push(format!("row {}: dead state not absorbing", i));
             }
-        }
-        for (nm, is_dead, is_match, is_special, is_start) in [
-            ("nnfa", n.is_dead(tn), n.is_match(tn), n.is_special(tn), n.is_start(tn)),
-            ("cnfa", c.is_dead(tc), c.is_match(tc), c.is_special(tc), c.is_start(tc)),
-        ] {
-            if (is_dead || is_match) && !is_special {
-                bad.push(format!("row {}: {} dead/match state not special", i, nm));
-            }
-            if is_special && !(is_dead || is_match || is_start) {
-                bad.push(format!("row {}: {} special state is neither dead, match nor start", i, nm));
-            }
-        }
-        if n.is_dead(sid(rn)) && !(n.is_dead(tn) && c.is_dead(tc)) {
-            bad.push(format!("row {}: dead state not absorbing", i));
         }
     }
-    report("simulation step on the natively built automata", &bad, &"no difference", !bad.is_empty())
+    bad.truncate(4);
+    report("simulation step on the natively built automata (rows x all bytes)", &bad, &"no difference", !bad.is_empty())
 }
 
 /// Oracle self-test: rows `mk|ci|overlapping|anchored|hexpat,..|hexhay|pid:s:e,..` taken
